@@ -278,8 +278,10 @@ def run(ctx):
         except Exception as e:
             raised("project%d!build" % i, "building an independent project", e, [])
             continue
-        for how in ("construct", "clone", "load"):
-            pb = gen.rand_project(rnd, spec, depth=0, small=True) if how == "construct" else (pa.clone() if how == "clone" else api.read_sunvox_file(io.BytesIO(data)))
+        import copy as _copy
+        for how in ("construct", "clone", "load", "deepcopy"):
+            pb = (gen.rand_project(rnd, spec, depth=0, small=True) if how == "construct" else pa.clone() if how == "clone"
+                  else _copy.deepcopy(pa) if how == "deepcopy" else api.read_sunvox_file(io.BytesIO(data)))
             events = [heap_event("project %s" % how, [("A", pa), ("B", pb)])]
             _, leaves = c06.catalogue(pa, spec, rnd)
             rnd.shuffle(leaves)
@@ -329,6 +331,27 @@ def run(ctx):
             sa1 = digest(pa, spec)
             events.append({"op": "mutate", "kind": "refused-cross-project-requests:requesting-side", "provenance": "project %s" % how,
                            "state_before": sa0[0], "state_after": sa1[0], "bytes_before": sa0[1], "bytes_after": sa1[1], "diff": first_diff(sa0[2], sa1[2])})
+            # a note CLONED from A's pattern and stored (plain cell assignment) in a pattern of B belongs to B's side only
+            sa, ba, pj1 = digest(pb, spec)
+            events.append({"op": "mutate", "kind": "refused-cross-project-requests:refusing-side", "provenance": "project %s" % how, "state_before": sb,
+                           "state_after": sa, "bytes_before": bb, "bytes_after": ba, "diff": first_diff(pj0, pj1)})
+            bpat = api.Pattern(lines=2, tracks=2)
+            pb.attach_pattern(bpat)
+            sb, bb, pj0 = digest(pb, spec)          # (taken again: B just got a pattern of its own)
+            sA0 = digest(pa, spec)
+            nclone = apat.data[1][1].clone()
+            nclone.module = 2
+            bpat.data[0][0] = nclone
+            try:
+                got = bpat.data[0][0].mod
+                if got is not None and got.parent is pa and pa is not pb:
+                    got.name = "reached through a cloned note"
+            except Exception:
+                pass
+            bpat.data[0][0] = api.Note()
+            sA1 = digest(pa, spec)
+            events.append({"op": "mutate", "kind": "note-cloned-into-another-project", "provenance": "project %s" % how, "state_before": sA0[0],
+                           "state_after": sA1[0], "bytes_before": sA0[1], "bytes_after": sA1[1], "diff": first_diff(sA0[2], sA1[2])})
             apat.data[0][0].vel = 77
             apat.set_via_fn(lambda p_, l_, t_: api.Note(module=2))
             sa, ba, pj1 = digest(pb, spec)
